@@ -17,8 +17,9 @@ LEVEL_TEXT = (
     "first, round-trip through SSCChart.from_str, and have the NOTEDATA...NOTES framing according to the tokenizer."
 )
 LEVEL_NOTE = c01.LEVEL_NOTE
-RULE = c01.RULE.replace("chart field edits by attribute and key, extradata", "SSC chart edits by key and attribute incl. deletion and reordering") + \ + ' Round 6: 32-70 charts, second load (loads) after the first result was edited in place.'
-    " Values may be pool references: the same Python string object under several keys (identity aliasing)."
+RULE = c01.RULE.replace("chart field edits by attribute and key, extradata", "SSC chart edits by key and attribute incl. deletion and reordering") + \
+    " Values may be pool references: the same Python string object under several keys (identity aliasing)." \
+    " Round 6: 32-70 charts, second load (loads) after the first result was edited in place."
 ASSUMPTIONS = c01.ASSUMPTIONS
 MONITORS = ["model_equality", "roundtrip", "restringify", "loads_detects_ssc", "tokenizer_structure", "chart_from_str", "eq_when_notes_last", "second_parse_after_editing_the_first"]
 REQUIRED = ["empty_notes", "interned_notes", "same_object_as_notes", "notes2", "notes_not_last", "chart_multi_value",
